@@ -50,8 +50,11 @@ def is_none(f):
 def forms(f, kind, rnd, depth=0):
     """All top-level forms of semantic field f in a context of the given kind."""
     t = f["t"]
-    general = kind == "general"
-    plain_ok = kind in ("general", "orright")         # a bare mapped builtin name is acceptable
+    # "unionmember": a member of a typing.Union / typing.Optional — as "general", except that an AnyOf member is never
+    # itself written as a typing Union/Optional there (typing would flatten it into the enclosing Union: a nested
+    # typing Union inside a Union/Optional node is therefore always an INTENDED flattening spelling, see union_shapes)
+    general = kind in ("general", "unionmember")
+    plain_ok = kind in ("general", "orright", "unionmember")     # a bare mapped builtin name is acceptable
     sub = lambda g, k="general": pick(g, k, rnd, depth + 1)
     out = [("inst", f)] if t != "ref" and inst_ok(f) else []
     if t == "num":
@@ -148,15 +151,136 @@ def forms(f, kind, rnd, depth=0):
         out.append(("sub", cls, [member(g) for g in fs]))
         out.append(("ctorN", cls, [sub(g, "fieldy") for g in fs], NO_SZ, False, None))
         if t == "anyof":
-            if general and len(fs) >= 2:
-                out.append(("union", [("none",) if is_none(g) else sub(g) for g in fs]))
-            if general and len(fs) == 2 and is_none(fs[1]) and fs[0]["t"] not in ("anyof", "none"):
-                out.append(("optional", sub(fs[0])))
+            if kind == "general" and len(fs) >= 2:
+                mem = [("none",) if is_none(g) else sub(g, "unionmember") for g in fs]
+                shapes = union_shapes(mem)
+                out.append(shapes[0])                             # Union[m0, m1, ...] as written
+                whole = [x for x in shapes[1:] if x[0] == "optional"]
+                nested = [x for x in shapes[1:] if x[0] != "optional"]
+                out.extend(whole)                                 # Optional[T] / Optional[Union[...]] (None last)
+                if nested:                                        # Union[Union[a, b], c], Union[a, Optional[b]] ...
+                    out.extend(rnd.sample(nested, min(len(nested), 2)))
             if len(fs) == 2 and fs[0]["t"] not in ("ref", "none") and not is_none(fs[1]):
                 out.append(("or", sub(fs[0], "fieldy"), sub(fs[1], "orright")))
     elif t == "ref":
         out.append(("struct", f["cls"]))
     return out
+
+
+def union_shapes(mem):
+    """Every typing spelling of the union of the member spellings `mem` (("none",) for None) that typing FLATTENS to
+    Union[*mem]: the union as written first, then Optional[...] of the whole (None last and only there), then every
+    single contiguous group of >= 2 members written as a nested Union[...] / Optional[...]."""
+    n = len(mem)
+    none = ("none",)
+
+    def grp(g):
+        alts = [("union", list(g))]
+        if g[-1] == none and none not in g[:-1]:
+            inner = g[:-1]
+            alts.append(("optional", inner[0] if len(inner) == 1 else ("union", list(inner))))
+        return alts
+    out = [("union", list(mem))]
+    out += grp(mem)[1:]
+    for i in range(n):
+        for j in range(i + 2, n + 1):
+            if j - i == n:
+                continue
+            for a in grp(mem[i:j]):
+                out.append(("union", list(mem[:i]) + [a] + list(mem[j:])))
+    return [x for x in out if typing_cache_stable(x)]
+
+
+UNIQUE_HEADS = ("inst", "sub", "ctor1", "ctorN", "or")      # evaluate to a fresh Field instance every time
+
+
+def canonical_union(n):
+    """typing caches X[...] on the argument tuple, and two typing Unions are EQUAL when they have the same members in
+    any order: typing.Union[A, Union[B, None]] evaluated after typing.Union[A, Union[None, B]] returns the cached
+    object of the latter (members in the other order; the same for typing.List[Union[..]], Optional[Union[..]]).  That
+    is CPython's cache, not typedpy; it makes the meaning of a typing Union that is an ARGUMENT of another typing
+    construct depend on what the process evaluated before.  Such argument Unions are therefore only generated in ONE
+    canonical member order (None last, the others sorted by source text) unless a member is a fresh object."""
+    mem = list(n[1]) if n[0] == "union" else [n[1], ("none",)]
+    if any(a[0] in UNIQUE_HEADS for a in mem):
+        return True
+    if ("none",) in mem[:-1]:
+        return False
+    texts = [render(a) for a in mem if a != ("none",)]
+    return texts == sorted(texts)
+
+
+def typing_cache_stable(s, under_typing=False):
+    """Every typing Union/Optional that occurs (at any depth, also inside PEP 585 generics, whose == compares their
+    arguments) below a typing construct in s is canonical."""
+    k = s[0]
+    if k in ("union", "optional") and under_typing and not canonical_union(s):
+        return False
+    below = under_typing or k in ("typing", "union", "optional")
+    if k in UNIQUE_HEADS:
+        below = False                 # a fresh Field instance: never equal to an earlier argument
+    if k in ("typing", "pep585", "sub", "ctorN"):
+        kids = s[2]
+    elif k == "union":
+        kids = s[1]
+    elif k == "optional":
+        kids = [s[1]]
+    elif k == "or":
+        kids = [s[1], s[2]]
+    elif k == "ctor1":
+        kids = [s[2]]
+    else:
+        kids = []
+    return all(typing_cache_stable(a, below) for a in kids)
+
+
+def flat_leaves(n):
+    """Members of a union/optional node after typing's flattening (no de-duplication)."""
+    if n[0] == "union":
+        out = []
+        for a in n[1]:
+            out += flat_leaves(a) if a[0] in ("union", "optional") else [a]
+        return out
+    if n[0] == "optional":
+        return (flat_leaves(n[1]) if n[1][0] in ("union", "optional") else [n[1]]) + [("none",)]
+    return [n]
+
+
+_TYPING_ORIGIN = None
+_uniq = [0]
+
+
+def model_key(s, in_typing=False):
+    """Identity of the object a spelling evaluates to, as Struct/Spelling.v's pyobj_eqb sees it (two Field instances
+    are always different objects; typing.List[int] and list[int] are the same OGeneric there)."""
+    global _TYPING_ORIGIN
+    if _TYPING_ORIGIN is None:
+        _TYPING_ORIGIN = {v: k for k, v in TYPING_OF.items()}
+    k = s[0]
+    if k == "name":
+        return ("T", s[1])
+    if k == "none":
+        return ("NT",) if in_typing else ("N",)
+    if k == "bare":
+        return ("G", _TYPING_ORIGIN.get(s[1], s[1]), ())
+    if k == "typing":
+        return ("G", _TYPING_ORIGIN.get(s[1], s[1]), tuple(model_key(a, True) for a in s[2]))
+    if k == "pep585":
+        return ("G", s[1], tuple(model_key(a) for a in s[2]))
+    if k in ("union", "optional"):
+        return ("U", tuple(model_key(a, True) for a in flat_leaves(s)))
+    if k == "fcls":
+        return ("C", s[1])
+    if k == "struct":
+        return ("S", s[1])
+    _uniq[0] += 1
+    return ("I", _uniq[0])
+
+
+def model_nodup(n):
+    """The flattened members of union/optional node n are pairwise different objects for the model."""
+    keys = [model_key(a, True) for a in flat_leaves(n)]
+    return len(set(keys)) == len(keys)
 
 
 def inst_ok(f):
